@@ -110,6 +110,7 @@ func runC15(w *World, r *Report) {
 	r.Rule("helper", "newMatchFieldHeader builds {Class, Field, Length} from its arguments with HasMask false", 1)
 	r.Rule("lookup", "case folding, width doubling and mask flag of the lookup", 5)
 	r.Rule("fresh", "the lookup returns a fresh allocation that copies no pointer from the table", 1)
+	runC15Lanes(w, r)
 	var spec regSpec
 	if err := loadSpec("oxm_registry.json", &spec); err != nil {
 		r.Fail(VUndecided, "registry", "spec", "", "-", err.Error())
